@@ -38,6 +38,10 @@ def run_one(name, tier, seeds, props):
     try:
         p = subprocess.run(["git", "-C", wt, "apply", patch], stderr=subprocess.PIPE, text=True)
         if p.returncode != 0:
+            # hook lines added to /repo after the patch was written may sit in its context: merge three-way
+            p = subprocess.run(["git", "-C", wt, "apply", "--3way", patch], stderr=subprocess.PIPE, text=True)
+            subprocess.run(["git", "-C", wt, "reset", "-q"])
+        if p.returncode != 0:
             return {"seed_change": name, "error": "patch does not apply: " + p.stderr[-500:]}
         for prop in (props or [sid]):
             for seed in seeds:
